@@ -18,7 +18,7 @@ def _pick(rng, force, options):
     return force if force in options else c
 
 
-VARIANTS = {'np_transcendental': ['log', 'log2', 'log10', 'exp2', 'exp', 'pow_float', 'rpow2', 'rpow3'], 'np_xstack': ['vstack', 'hstack', 'dstack', 'column_stack', 'row_stack', 'block'], 'np_dims': ['expand_dims', 'squeeze', 'diag', 'diagflat'], 'np_flatten': ['flatten', 'tolist', 'copy', 'flat'], 'np_split': ['split', 'hsplit', 'vsplit', 'dsplit'], 'np_flip': ['flip', 'fliplr', 'flipud'], 'np_cumsum': ['cumsum', 'cumulative_sum'], 'np_trace': ['trace', 'diagonal'], 'np_argmin': ['argmin', 'argmax'], 'np_where': ['where', 'if_swap']}
+VARIANTS = {'f256_arith': ['add', 'mul', 'sum', 'reciprocal', 'div', 'is_zero_public'], 'np_transcendental': ['log', 'log2', 'log10', 'exp2', 'exp', 'pow_float', 'rpow2', 'rpow3'], 'np_xstack': ['vstack', 'hstack', 'dstack', 'column_stack', 'row_stack', 'block'], 'np_dims': ['expand_dims', 'squeeze', 'diag', 'diagflat'], 'np_flatten': ['flatten', 'tolist', 'copy', 'flat'], 'np_split': ['split', 'hsplit', 'vsplit', 'dsplit'], 'np_flip': ['flip', 'fliplr', 'flipud'], 'np_cumsum': ['cumsum', 'cumulative_sum'], 'np_trace': ['trace', 'diagonal'], 'np_argmin': ['argmin', 'argmax'], 'np_where': ['where', 'if_swap']}
 
 
 def fmod(kind, a):
@@ -732,19 +732,43 @@ def _gf256_matmul(a, b):
     return out
 
 
+def _gf256_inv(x):
+    x = int(x)
+    for y in range(1, 256):
+        if _gf256_mul(x, y) == 1:
+            return y
+    raise ZeroDivisionError
+
+
 @op('f256_arith', ['f256'])
 def _f256(rng, kind, force):
     s = rshape(rng, 2, 12)
     a, b = rvals(rng, kind, s), rvals(rng, kind, s)
-    which = rng.choice(['add', 'mul', 'sum'])
+    which = force or rng.choice(['add', 'mul', 'sum', 'reciprocal', 'div', 'is_zero_public'])
+    if which in ('reciprocal', 'div'):       # nonzero divisors (small-field zero sharing: np_pseudorandom_share_0)
+        b = vec(lambda x: int(x) or 1 + rng.randrange(255), b)
+    if which == 'is_zero_public' and a.size and rng.random() < 0.7:
+        a.reshape(-1)[rng.randrange(a.size)] = 0
 
     def call(mpc, S, X):
         assert S.field.modulus == 0x11b, S.field.modulus
+        if which == 'reciprocal':
+            return mpc.np_reciprocal(X['b'])
+        if which == 'div':
+            return X['a'] / X['b']
+        if which == 'is_zero_public':
+            return _Awaited(mpc.np_is_zero_public(X['a']))
         return X['a'] + X['b'] if which == 'add' else X['a'] * X['b'] if which == 'mul' else mpc.np_sum(X['a'] * X['b'])
 
     def ref(P):
         if which == 'add':
             return vec(lambda x, y: int(x) ^ int(y), a, b)
+        if which == 'reciprocal':
+            return vec(_gf256_inv, b)
+        if which == 'div':
+            return vec(lambda x, y: _gf256_mul(int(x), _gf256_inv(y)), a, b)
+        if which == 'is_zero_public':
+            return vec(lambda x: int(int(x) == 0), a)
         pr = vec(lambda x, y: _gf256_mul(int(x), int(y)), a, b)
         if which == 'mul':
             return pr
@@ -752,8 +776,15 @@ def _f256(rng, kind, force):
         for x in pr.reshape(-1):
             v ^= x
         return np.array(v, dtype=object)
+
+    def scalar(mpc, S, L):
+        if which == 'reciprocal':
+            return bvec(lambda y: mpc.reciprocal(y), L['b'])
+        if which == 'div':
+            return bvec(lambda x, y: x / y, L['a'], L['b'])
+        return bvec(lambda x, y: x + y if which == 'add' else x * y, L['a'], L['b'])
     return {'inputs': {'a': a, 'b': b}, 'call': call, 'ref': ref,
-            'scalar': lambda mpc, S, L: bvec(lambda x, y: x + y if which == 'add' else x * y, L['a'], L['b']) if which != 'sum' else None,
+            'scalar': scalar if which not in ('sum', 'is_zero_public') else None,
             'desc': f'GF(2^8) arrays: {which} a{list(s)} b{list(s)}', 'key': (s, which, str(a.tolist()), str(b.tolist()))}
 
 
